@@ -411,6 +411,40 @@ def cls_hcm_minmax_first_node(d):
     return False
 
 
+def cls_praj_minq_coupling(d):
+    """P_RAJ lifetime (not the verdict) of a batch point with per-point stress gradients whose P_RAJ fatigue-limit classes q differ, for a point
+    whose own q is not the smallest: DamageCalculatorPRAJ._compute_xbar_minus_2 sums the classes from min(q) over ALL points and counts
+    every class from there on twice (previous_j = j), so the damage sum of a point depends on the fatigue-limit class of the others"""
+    it = d['item']
+    if it['kind'] != 'batch' or not d['measure'].startswith('RAJ') or d['measure'] == 'RAJ_inf':
+        return False
+    if not isinstance(it['specs'][1].get('G'), list):
+        return False
+    b = fkmnl.run_jobs([('assess', it['specs'][1])])[0]
+    q = b.get('RAJ_q')
+    if 'error' in b or not q or len(q) != len(it['specs'][1]['ratios']):
+        return False
+    return min(q) < q[it['i']]
+
+
+def cls_praj_crack_closed_from_zero(d):
+    """P_RAJ lifetime / verdict under larger loads (scale, smaller P_A), where a hysteresis that did damage before gets P_RAJ = 0 after:
+    damage_parameter.P_RAJ starts the crack-opening strain epsilon_open_alt at 0.0 (the comment one line above says -inf, FKM nonlinear
+    2.9.7 point 2); after a large compressive plastic pre-strain a hysteresis reaching into tension (S_max > 0) has epsilon_max < 0 and is
+    taken as 'crack does not open' (case 1): no damage, life reported infinite"""
+    it = d['item']
+    if it['kind'] not in ('scale', 'pa') or d['measure'] not in ('RAJ_life', 'RAJ_inf'):
+        return False
+    a, b = fkmnl.run_jobs([('assess', s) for s in it['specs']])
+    if 'error' in a or 'error' in b or a['RAJ_n_hyst'] != b['RAJ_n_hyst']:
+        return False
+    ca, cb = a['RAJ_col'], b['RAJ_col']
+    for pa_, pb_, smax in zip(ca['P_RAJ'][0], cb['P_RAJ'][0], cb['S_max'][0]):
+        if pa_ > 0 and pb_ == 0 and smax > 0:
+            return True
+    return False
+
+
 def cls_unsorted_node_ids(d):
     """batch whose node_id labels are not in ascending order: maximum_absolute_load (groupby('node_id')) and the zero sample prepended for the
     first HCM run sort the per-point values by label while the load samples are used in the caller's order: look-up tables, gamma_L and the
@@ -424,6 +458,8 @@ def cls_unsorted_node_ids(d):
 
 def register_classes(res):
     res.classes['unsorted_node_ids'] = cls_unsorted_node_ids
+    res.classes['praj_minq_coupling'] = cls_praj_minq_coupling
+    res.classes['praj_crack_closed_from_zero'] = cls_praj_crack_closed_from_zero
     res.classes['hcm_minmax_strain_first_node'] = cls_hcm_minmax_first_node
     res.classes['praj_shared_class_max'] = cls_praj_shared_class_max
     res.classes['class_edge_batch'] = cls_class_edge_batch
@@ -509,8 +545,10 @@ def contract_checks(res, items, table):
                     fail(names[6], {'item': it, 'table maximum batch/single': [b['RAM_Lmax'][i], a['RAM_Lmax'][0]]})
             km_b, km_a = b.get('RAJ_klass_max'), a.get('RAJ_klass_max')
             if km_b and km_a:
-                own_ok = close(km_b[i], km_a[0], 1e-9)
-                max_ok = close(km_b[i], max(km_b), 1e-12) and max(km_b) >= km_a[0] * (1 - 1e-9)
+                # the class maximum is a P_RAJ value from the iteratively filled Seeger-Beste tables: batch and single solves end on slightly
+                # different iterates (RT_SOLVER, observed up to 1e-6); own vs batch maximum differ by >= 1e-3 when they differ
+                own_ok = close(km_b[i], km_a[0], RT_SOLVER)
+                max_ok = close(km_b[i], max(km_b), 1e-12) and max(km_b) >= km_a[0] * (1 - RT_SOLVER)
                 if not (own_ok or max_ok):
                     fail(names[6], {'item': it, 'klass_max batch': km_b, 'single': km_a})
         if it['kind'] == 'batch' and key(it['specs'][1]) not in knee_seen:
